@@ -1,5 +1,6 @@
 /-
-C18 helper lemmas: versions, `latestOf`, `upsert`, `markDeleted`, `shard.repair` as a join.
+C18 helper lemmas: versions, `latestOf`/`latestLast`, `upsert`, `batchUpdate`, `markDeleted`, `shard.repair` as a join on
+`(revision, deleted?)`.
 -/
 import Banyan.Model.C18
 namespace Banyan.C18
@@ -79,44 +80,183 @@ theorem mem_upsert {s : Shard} {d x : Doc} :
     x ∈ upsert s d ↔ (x ∈ s ∧ ¬ (x.key = d.key ∧ x.rev = d.rev)) ∨ x = d := by
   simp only [upsert, List.mem_append, List.mem_filter, List.mem_singleton, id_ne_iff]
 
-/-- `markDeleted` only changes delete times. -/
-def sameButDel (x y : Doc) : Prop := x.key = y.key ∧ x.rev = y.rev ∧ x.created = y.created ∧ x.tags = y.tags
 
-theorem mem_markDeleted {s : Shard} {ids : List DocId} {t : Nat} {y : Doc} :
-    y ∈ markDeleted s ids t ↔
-      ∃ x ∈ s, (x.id ∈ ids ∧ y = { x with del := t }) ∨ (x.id ∉ ids ∧ y = x) := by
-  simp only [markDeleted, List.mem_map, List.contains_iff_mem]
-  constructor
-  · rintro ⟨x, hx, rfl⟩
-    refine ⟨x, hx, ?_⟩
-    by_cases h : x.id ∈ ids
-    · left; simp [h]
-    · right; simp [h]
-  · rintro ⟨x, hx, h⟩
-    refine ⟨x, hx, ?_⟩
-    rcases h with ⟨h, rfl⟩ | ⟨h, rfl⟩
-    · simp [h]
-    · simp [h]
+/-! ### `latestLast` -/
 
-/-! ### `shard.repair` -/
+theorem latestLast_none {l : List Doc} : latestLast l = none ↔ l = [] := by
+  cases l with
+  | nil => simp [latestLast]
+  | cons d ds =>
+    simp only [latestLast]
+    split
+    · simp
+    · split <;> simp
 
-def topVer (s : Shard) (k : String) : Option Ver := (top s k).map ver
+theorem latestLast_spec {l : List Doc} {e : Doc} (h : latestLast l = some e) :
+    e ∈ l ∧ ∀ x ∈ l, x.rev ≤ e.rev := by
+  induction l generalizing e with
+  | nil => simp [latestLast] at h
+  | cons d ds ih =>
+    simp only [latestLast] at h
+    split at h
+    · rename_i hn
+      rw [latestLast_none] at hn
+      subst hn
+      simp at h; subst h; simp
+    · rename_i e' he'
+      have := ih he'
+      split at h
+      · simp at h; subst h
+        refine ⟨by simp [this.1], ?_⟩
+        intro x hx
+        simp at hx
+        rcases hx with rfl | hx
+        · omega
+        · exact this.2 x hx
+      · simp at h; subst h
+        refine ⟨by simp, ?_⟩
+        intro x hx
+        simp at hx
+        rcases hx with rfl | hx
+        · omega
+        · have := this.2 x hx; omega
+
+/-- the last document of a list is picked when nothing before it has a higher revision. -/
+theorem latestLast_append_last (l : List Doc) (d : Doc) (h : ∀ x ∈ l, x.rev ≤ d.rev) :
+    latestLast (l ++ [d]) = some d := by
+  induction l with
+  | nil => simp [latestLast]
+  | cons a as ih =>
+    have := ih (fun x hx => h x (by simp [hx]))
+    simp only [List.cons_append, latestLast, this]
+    have ha := h a (by simp)
+    simp [ha]
+
+theorem top_spec {s : Shard} {k : String} {l : Doc} (h : top s k = some l) :
+    l ∈ s ∧ l.key = k ∧ ∀ x ∈ s, x.key = k → x.rev ≤ l.rev := by
+  have ⟨h1, h2⟩ := latestOf_spec h
+  rw [mem_docsOf] at h1
+  exact ⟨h1.1, h1.2, fun x hx hk => h2 x (mem_docsOf.2 ⟨hx, hk⟩)⟩
+
+theorem topLast_spec {s : Shard} {k : String} {l : Doc} (h : topLast s k = some l) :
+    l ∈ s ∧ l.key = k ∧ ∀ x ∈ s, x.key = k → x.rev ≤ l.rev := by
+  have ⟨h1, h2⟩ := latestLast_spec h
+  rw [mem_docsOf] at h1
+  exact ⟨h1.1, h1.2, fun x hx hk => h2 x (mem_docsOf.2 ⟨hx, hk⟩)⟩
+
+theorem top_none {s : Shard} {k : String} : top s k = none ↔ ∀ x ∈ s, x.key ≠ k := by
+  simp only [top, latestOf_none, docsOf, List.filter_eq_nil_iff]
+  simp
+
+theorem topLast_none {s : Shard} {k : String} : topLast s k = none ↔ ∀ x ∈ s, x.key ≠ k := by
+  simp only [topLast, latestLast_none, docsOf, List.filter_eq_nil_iff]
+  simp
+
+theorem top_none_iff_topLast_none {s : Shard} {k : String} : top s k = none ↔ topLast s k = none := by
+  rw [top_none, topLast_none]
+
+/-- a document of key `k` with the highest revision of `k` in `s`. -/
+def IsNewest (s : Shard) (k : String) (l : Doc) : Prop := l ∈ s ∧ l.key = k ∧ ∀ x ∈ s, x.key = k → x.rev ≤ l.rev
+
+theorem isNewest_rev {s : Shard} {k : String} {a b : Doc} (ha : IsNewest s k a) (hb : IsNewest s k b) : a.rev = b.rev := by
+  have h1 := ha.2.2 b hb.1 hb.2.1
+  have h2 := hb.2.2 a ha.1 ha.2.1
+  omega
+
+theorem top_isSome_of_mem {s : Shard} {k : String} {x : Doc} (hx : x ∈ s) (hk : x.key = k) : ∃ l, top s k = some l := by
+  cases h : top s k with
+  | none => exact absurd hk (top_none.1 h x hx)
+  | some l => exact ⟨l, rfl⟩
+
+theorem top_congr {s s' : Shard} {k : String} (h : docsOf s' k = docsOf s k) : top s' k = top s k := by
+  simp only [top, h]
+
+/-! ### coarse versions: `(revision, deleted?)` -/
+
+/-- what Query and convergence are about: the revision and whether it is a tombstone (1) or live (0). -/
+def cver (d : Doc) : Ver := (d.rev, if d.del > 0 then 1 else 0)
+
+/-- all stored documents of one key and revision agree on "deleted?" (true of every state the system reaches:
+    two documents of one id are both tombstones). -/
+def FlagConsistent (s : Shard) : Prop :=
+  ∀ x ∈ s, ∀ y ∈ s, x.key = y.key → x.rev = y.rev → (0 < x.del ↔ 0 < y.del)
+
+theorem cver_eq_of_newest {s : Shard} (hf : FlagConsistent s) {k : String} {a b : Doc}
+    (ha : IsNewest s k a) (hb : IsNewest s k b) : cver a = cver b := by
+  have hr := isNewest_rev ha hb
+  have hd := hf a ha.1 b hb.1 (ha.2.1.trans hb.2.1.symm) hr
+  simp only [cver, hr]
+  by_cases h : 0 < a.del
+  · simp [h, hd.1 h]
+  · have : ¬ 0 < b.del := fun hb' => h (hd.2 hb')
+    simp [h, this]
+
+/-- newest coarse version of key `k` in shard `s`. -/
+def ctopVer (s : Shard) (k : String) : Option Ver := (top s k).map cver
 
 def vjoin : Option Ver → Option Ver → Option Ver
   | none, b => b
   | some a, none => some a
   | some a, some b => if vlt a b then some b else some a
 
-/-- the refusal test of the (fixed) `shard.repair` is "the incoming document is not newer". -/
-theorem refuse_iff (l d : Doc) :
-    (decide (l.rev > d.rev) || (l.rev == d.rev && decide (l.del ≥ d.del))) = true ↔ ¬ vlt (ver l) (ver d) := by
-  simp [vlt, ver]
-  omega
+/-- what an incoming document contributes to the newest state of key `k`. -/
+def contrib (d : Doc) (k : String) : Option Ver := if d.key = k then some (cver d) else none
 
-theorem repair_refuse {s : Shard} {d l : Doc} (t : Nat) (hl : top s d.key = some l)
-    (h : ¬ vlt (ver l) (ver d)) : repair s d t = (s, false, some l) := by
-  simp only [repair, hl]
-  rw [if_pos ((refuse_iff l d).2 h)]
+theorem ctopVer_of_topLast {s : Shard} (hf : FlagConsistent s) {k : String} {l : Doc} (h : topLast s k = some l) :
+    ctopVer s k = some (cver l) := by
+  have hl := topLast_spec h
+  obtain ⟨l', hl'⟩ := top_isSome_of_mem hl.1 hl.2.1
+  simp only [ctopVer, hl', Option.map_some]
+  rw [cver_eq_of_newest hf (top_spec hl') hl]
+
+/-! ### `batchUpdate`, `hits`, `markDeleted` -/
+
+theorem mem_batchUpdate {s : Shard} {docs : List Doc} {y : Doc} :
+    y ∈ batchUpdate s docs ↔ (y ∈ s ∧ ∀ z ∈ docs, z.id ≠ y.id) ∨ y ∈ docs := by
+  simp only [batchUpdate, List.mem_append, List.mem_filter]
+  constructor
+  · rintro (⟨hy, h⟩ | h)
+    · left
+      refine ⟨hy, ?_⟩
+      intro z hz e
+      have : (docs.any fun z => z.id == y.id) = true := List.any_eq_true.2 ⟨z, hz, by simp [e]⟩
+      simp [this] at h
+    · exact Or.inr h
+  · rintro (⟨hy, h⟩ | h)
+    · left
+      refine ⟨hy, ?_⟩
+      have : (docs.any fun z => z.id == y.id) = false := by
+        rw [List.any_eq_false]; intro z hz; simp [h z hz]
+      simp [this]
+    · exact Or.inr h
+
+theorem mem_hits {s : Shard} {ids : List DocId} {x : Doc} (h : x ∈ hits s ids) : x ∈ s ∧ x.id ∈ ids := by
+  have := List.mem_of_mem_take h
+  simpa using this
+
+theorem batchUpdate_nil (s : Shard) : batchUpdate s [] = s := by
+  simp [batchUpdate]
+
+theorem markDeleted_nil (s : Shard) (t : Nat) : markDeleted s [] t = s := by
+  simp [markDeleted, hits, batchUpdate_nil]
+
+theorem docsOf_batchUpdate_other {s : Shard} {docs : List Doc} {k : String} (h : ∀ z ∈ docs, z.key ≠ k) :
+    docsOf (batchUpdate s docs) k = docsOf s k := by
+  simp only [batchUpdate, docsOf_append]
+  have : docsOf docs k = [] := by
+    simp only [docsOf, List.filter_eq_nil_iff]
+    intro z hz; simp [h z hz]
+  rw [this, List.append_nil]
+  simp only [docsOf, List.filter_filter]
+  apply List.filter_congr
+  intro x _
+  by_cases hx : x.key = k
+  · have : (docs.any fun z => z.id == x.id) = false := by
+      rw [List.any_eq_false]; intro z hz
+      have := h z hz
+      simp [Doc.id, hx]; intro e; exact absurd e this
+    simp [hx, this]
+  · simp [hx]
 
 theorem docsOf_upsert_other {s : Shard} {d : Doc} {k : String} (hk : k ≠ d.key) :
     docsOf (upsert s d) k = docsOf s k := by
@@ -130,31 +270,106 @@ theorem docsOf_upsert_other {s : Shard} {d : Doc} {k : String} (hk : k ≠ d.key
   · simp [hx, Doc.id, hk]
   · simp [hx]
 
-theorem docsOf_map_keep {s : Shard} {f : Doc → Doc} {k : String}
-    (hf : ∀ x, (f x).key = x.key ∧ (x.key = k → f x = x)) : docsOf (s.map f) k = docsOf s k := by
-  induction s with
-  | nil => rfl
-  | cons x xs ih =>
-    have ih' : List.filter (fun d => d.key == k) (List.map f xs) = List.filter (fun d => d.key == k) xs := ih
-    by_cases hx : x.key = k
-    · simp [docsOf, hx, (hf x).2 hx, ih']
-    · simp [docsOf, (hf x).1, hx, ih']
-
 theorem docsOf_markDeleted_other {s : Shard} {ids : List DocId} {t : Nat} {k : String}
     (hids : ∀ i ∈ ids, i.1 ≠ k) : docsOf (markDeleted s ids t) k = docsOf s k := by
-  apply docsOf_map_keep
-  intro x
-  constructor
-  · split <;> rfl
-  · intro hx
-    have : x.id ∉ ids := fun h => hids _ h hx
-    simp [this]
+  apply docsOf_batchUpdate_other
+  intro z hz
+  simp only [List.mem_map] at hz
+  obtain ⟨x, hx, rfl⟩ := hz
+  exact hids _ (mem_hits hx).2
 
-theorem liveIdsExcept_key {docs : List Doc} {id i : DocId} {k : String} (hd : ∀ x ∈ docs, x.key = k)
-    (hi : i ∈ liveIdsExcept docs id) : i.1 = k := by
-  simp only [liveIdsExcept, List.mem_map, List.mem_filter] at hi
+/-- when every stored document whose id is listed is the same document `x0` (ids are unique in the shard, as in a
+    fault-free run), the lookup limit does not matter and `markDeleted` rewrites exactly the listed ids. -/
+theorem mem_markDeleted_uniform {s : Shard} {ids : List DocId} {t : Nat} {x0 : Doc}
+    (hx0 : x0 ∈ s) (hid : x0.id ∈ ids) (huni : ∀ x ∈ s, x.id ∈ ids → x = x0) {y : Doc} :
+    y ∈ markDeleted s ids t ↔
+      ∃ x ∈ s, (x.id ∈ ids ∧ y = { x with del := t }) ∨ (x.id ∉ ids ∧ y = x) := by
+  have hne : ids ≠ [] := by intro e; rw [e] at hid; simp at hid
+  have hpos : 0 < ids.length := List.length_pos_iff.2 hne
+  -- the hits are a non-empty list of copies of `x0`
+  have hall : ∀ x ∈ hits s ids, x = x0 := fun x hx => huni x (mem_hits hx).1 (mem_hits hx).2
+  have hmem : x0 ∈ hits s ids := by
+    have hf : x0 ∈ s.filter (fun x => ids.contains x.id) := by simp [hx0, hid]
+    cases hfl : s.filter (fun x => ids.contains x.id) with
+    | nil => rw [hfl] at hf; simp at hf
+    | cons a as =>
+      have ha : a = x0 := by
+        have : a ∈ s.filter (fun x => ids.contains x.id) := by rw [hfl]; simp
+        have := List.mem_filter.1 this
+        exact huni a this.1 (by simpa using this.2)
+      simp only [hits, hfl]
+      cases hn : ids.length with
+      | zero => omega
+      | succ n => simp [List.take, ha]
+  simp only [markDeleted, mem_batchUpdate, List.mem_map]
+  constructor
+  · rintro (⟨hy, hz⟩ | ⟨x, hx, rfl⟩)
+    · refine ⟨y, hy, Or.inr ⟨?_, rfl⟩⟩
+      intro hin
+      have := huni y hy hin
+      exact hz (tomb t x0) ⟨x0, hmem, rfl⟩ (by rw [this]; rfl)
+    · have := hall x hx
+      subst this
+      exact ⟨x, hx0, Or.inl ⟨hid, rfl⟩⟩
+  · rintro ⟨x, hx, ⟨hin, rfl⟩ | ⟨hnin, rfl⟩⟩
+    · have := huni x hx hin
+      subst this
+      exact Or.inr ⟨x, hmem, rfl⟩
+    · left
+      refine ⟨hx, ?_⟩
+      rintro z ⟨w, hw, rfl⟩ e
+      have hw' := hall w hw
+      subst hw'
+      apply hnin
+      have : y.id = w.id := by rw [← e]; rfl
+      rw [this]; exact hid
+
+/-! ### `shard.repair` -/
+
+/-- the refusal test of the (fixed) `shard.repair`. -/
+def Refuses (l d : Doc) : Prop := l.rev > d.rev ∨ (l.rev = d.rev ∧ l.del ≥ d.del)
+
+theorem refuse_iff (l d : Doc) :
+    (decide (l.rev > d.rev) || (l.rev == d.rev && decide (l.del ≥ d.del))) = true ↔ Refuses l d := by
+  simp [Refuses]
+
+theorem repair_refuse {s : Shard} {d l : Doc} (t : Nat) (hl : topLast s d.key = some l)
+    (h : Refuses l d) : repair s d t = (s, false, some l) := by
+  simp only [repair, hl]
+  rw [if_pos ((refuse_iff l d).2 h)]
+
+theorem repair_accept_eq {s : Shard} {d l : Doc} (t : Nat) (hl : topLast s d.key = some l)
+    (h : ¬ Refuses l d) : repair s d t = (batchUpdate s (repairBatch s d t), true, none) := by
+  simp only [repair, hl]
+  rw [if_neg (fun hh => h ((refuse_iff l d).1 hh))]
+
+theorem repair_empty_eq {s : Shard} {d : Doc} (t : Nat) (hl : topLast s d.key = none) :
+    repair s d t = (upsert s d, true, none) := by
+  simp only [repair, hl]
+
+theorem liveIds_key {docs : List Doc} {i : DocId} {k : String} (hd : ∀ x ∈ docs, x.key = k)
+    (hi : i ∈ liveIds docs) : i.1 = k := by
+  simp only [liveIds, List.mem_map, List.mem_filter] at hi
   obtain ⟨x, ⟨hx, _⟩, rfl⟩ := hi
   exact hd x hx
+
+/-- every document of the batch has the key of the incoming document; the rewritten ones stem from stored ones. -/
+theorem mem_repairBatch {s : Shard} {d : Doc} {t : Nat} {y : Doc} (hy : y ∈ repairBatch s d t) :
+    y = d ∨ ∃ x ∈ s, x.key = d.key ∧ y = tomb t x := by
+  simp only [repairBatch, List.mem_append, List.mem_map, List.mem_singleton] at hy
+  rcases hy with ⟨x, hx, rfl⟩ | rfl
+  · right
+    have := mem_hits hx
+    exact ⟨x, this.1, liveIds_key (k := d.key) (fun z hz => (mem_docsOf.1 hz).2) this.2, rfl⟩
+  · exact Or.inl rfl
+
+theorem repairBatch_key {s : Shard} {d : Doc} {t : Nat} {y : Doc} (hy : y ∈ repairBatch s d t) : y.key = d.key := by
+  rcases mem_repairBatch hy with rfl | ⟨x, _, hk, rfl⟩
+  · rfl
+  · exact hk
+
+theorem d_mem_repairBatch (s : Shard) (d : Doc) (t : Nat) : d ∈ repairBatch s d t := by
+  simp [repairBatch]
 
 theorem repair_other (s : Shard) (d : Doc) (t : Nat) {k : String} (hk : k ≠ d.key) :
     docsOf (repair s d t).1 k = docsOf s k := by
@@ -163,11 +378,9 @@ theorem repair_other (s : Shard) (d : Doc) (t : Nat) {k : String} (hk : k ≠ d.
   · exact docsOf_upsert_other hk
   · split
     · rfl
-    · rw [docsOf_upsert_other hk, docsOf_markDeleted_other]
-      intro i hi
-      have := liveIdsExcept_key (k := d.key) (fun x hx => (mem_docsOf.1 hx).2) hi
-      rw [this]; exact fun h => hk h.symm
-
+    · apply docsOf_batchUpdate_other
+      intro z hz
+      rw [repairBatch_key hz]; exact fun e => hk e.symm
 
 theorem top_upsert_newest {s : Shard} {d : Doc} (h : ∀ x ∈ s, x.key = d.key → x.rev ≤ d.rev) :
     top (upsert s d) d.key = some d := by
@@ -183,67 +396,189 @@ theorem top_upsert_newest {s : Shard} {d : Doc} (h : ∀ x ∈ s, x.key = d.key 
       · intro e; exact absurd ⟨hk, e⟩ h2
     · subst hx; exact ⟨Nat.le_refl _, fun _ => rfl⟩
 
-theorem top_spec {s : Shard} {k : String} {l : Doc} (h : top s k = some l) :
-    l ∈ s ∧ l.key = k ∧ ∀ x ∈ s, x.key = k → x.rev ≤ l.rev := by
-  have ⟨h1, h2⟩ := latestOf_spec h
-  rw [mem_docsOf] at h1
-  exact ⟨h1.1, h1.2, fun x hx hk => h2 x (mem_docsOf.2 ⟨hx, hk⟩)⟩
+theorem vjoin_none_left (a : Option Ver) : vjoin none a = a := by cases a <;> rfl
+theorem vjoin_none_right (a : Option Ver) : vjoin a none = a := by cases a <;> rfl
 
-theorem top_none {s : Shard} {k : String} : top s k = none ↔ ∀ x ∈ s, x.key ≠ k := by
-  simp only [top, latestOf_none, docsOf, List.filter_eq_nil_iff]
-  simp
+theorem cver_le_of_not_refuses {l d : Doc} (h : ¬ Refuses l d) : ¬ vlt (cver d) (cver l) := by
+  simp only [Refuses, vlt, cver] at *
+  by_cases h1 : 0 < l.del <;> by_cases h2 : 0 < d.del <;> simp [h1, h2] <;> omega
 
-theorem repair_accept {s : Shard} {d l : Doc} (t : Nat) (hl : top s d.key = some l)
-    (h : vlt (ver l) (ver d)) :
-    top (repair s d t).1 d.key = some d ∧ (repair s d t).2 = (true, none) := by
-  have hr : ¬ ((decide (l.rev > d.rev) || (l.rev == d.rev && decide (l.del ≥ d.del))) = true) := by
-    rw [refuse_iff]; exact fun hn => hn h
-  simp only [repair, hl, if_neg hr, and_true]
-  apply top_upsert_newest
-  intro y hy hk
-  rw [mem_markDeleted] at hy
-  obtain ⟨x, hx, hy⟩ := hy
-  have hkx : x.key = d.key ∧ y.rev = x.rev := by
-    rcases hy with ⟨_, rfl⟩ | ⟨_, rfl⟩
-    · exact ⟨hk, rfl⟩
-    · exact ⟨hk, rfl⟩
-  have := (top_spec hl).2.2 x hx hkx.1
-  have hv : l.rev ≤ d.rev := by
-    simp only [vlt, ver] at h; omega
-  omega
+theorem cver_ge_of_refuses {l d : Doc} (h : Refuses l d) : ¬ vlt (cver l) (cver d) := by
+  simp only [Refuses, vlt, cver] at *
+  by_cases h1 : 0 < l.del <;> by_cases h2 : 0 < d.del <;> simp [h1, h2] <;> omega
 
-theorem repair_empty {s : Shard} {d : Doc} (t : Nat) (hl : top s d.key = none) :
-    top (repair s d t).1 d.key = some d ∧ (repair s d t).2 = (true, none) := by
-  simp only [repair, hl, and_true]
-  apply top_upsert_newest
-  intro x hx hk
-  exact absurd hk (top_none.1 hl x hx)
+/-- the complete description of an accepting repair (stored newest document `l` is older than the incoming `d`). -/
+theorem repair_accept_spec {s : Shard} (hf : FlagConsistent s) {d l : Doc} {t : Nat} (ht : 0 < t)
+    (hl : topLast s d.key = some l) (h : ¬ Refuses l d) :
+    let s' := batchUpdate s (repairBatch s d t)
+    (∃ n, top s' d.key = some n ∧ cver n = cver d) ∧ FlagConsistent s' ∧
+    topLast s' d.key = some d := by
+  intro s'
+  have hls := topLast_spec hl
+  have hrev : l.rev ≤ d.rev := by simp only [Refuses] at h; omega
+  -- documents of the key afterwards
+  have hdocs : ∀ y ∈ s', y.key = d.key → y.rev ≤ d.rev ∧ (y.rev = d.rev → cver y = cver d) := by
+    intro y hy hk
+    rcases mem_batchUpdate.1 hy with ⟨hys, hz⟩ | hb
+    · have h1 := hls.2.2 y hys hk
+      refine ⟨by omega, ?_⟩
+      intro e
+      exact absurd (show d.id = y.id by simp [Doc.id, hk, e]) (hz d (d_mem_repairBatch s d t))
+    · rcases mem_repairBatch hb with rfl | ⟨x, hx, hxk, rfl⟩
+      · exact ⟨Nat.le_refl _, fun _ => rfl⟩
+      · have h1 := hls.2.2 x hx hxk
+        refine ⟨by simp [tomb]; omega, ?_⟩
+        intro e
+        simp only [tomb] at e
+        -- a stored document of revision d.rev exists, so l.rev = d.rev and the incoming one is a later tombstone
+        have : l.rev = d.rev := by omega
+        have hd : l.del < d.del := by simp only [Refuses] at h; omega
+        have hdpos : 0 < d.del := by omega
+        simp [cver, tomb, e, ht, hdpos]
+  have hdin : d ∈ s' := mem_batchUpdate.2 (Or.inr (d_mem_repairBatch s d t))
+  refine ⟨?_, ?_, ?_⟩
+  · obtain ⟨n, hn⟩ := top_isSome_of_mem hdin rfl
+    have hns := top_spec hn
+    have h1 := hdocs n hns.1 hns.2.1
+    have h2 := hns.2.2 d hdin rfl
+    exact ⟨n, hn, h1.2 (by omega)⟩
+  · intro x hx y hy hk hr
+    -- classify both
+    by_cases hxk : x.key = d.key
+    · have hyk : y.key = d.key := hk ▸ hxk
+      rcases mem_batchUpdate.1 hx with ⟨hxs, hxz⟩ | hxb <;> rcases mem_batchUpdate.1 hy with ⟨hys, hyz⟩ | hyb
+      · exact hf x hxs y hys hk hr
+      · rcases mem_repairBatch hyb with rfl | ⟨w, hw, hwk, rfl⟩
+        · exact absurd (show y.id = x.id by simp [Doc.id, hk, hr]) (hxz y (d_mem_repairBatch s y t))
+        · exact absurd (show (tomb t w).id = x.id by simp [Doc.id, tomb] at hk hr ⊢; exact ⟨hk.symm, hr.symm⟩) (hxz _ hyb)
+      · rcases mem_repairBatch hxb with rfl | ⟨w, hw, hwk, rfl⟩
+        · exact absurd (show x.id = y.id by simp [Doc.id, hk, hr]) (hyz x (d_mem_repairBatch s x t))
+        · exact absurd (show (tomb t w).id = y.id by simp [Doc.id, tomb] at hk hr ⊢; exact ⟨hk, hr⟩) (hyz _ hxb)
+      · -- both from the batch: same revision ⇒ same flag
+        have hx1 := hdocs x hx hxk
+        have hy1 := hdocs y hy hyk
+        rcases mem_repairBatch hxb with rfl | ⟨w, hw, hwk, rfl⟩ <;> rcases mem_repairBatch hyb with rfl | ⟨v, hv, hvk, rfl⟩
+        · exact Iff.rfl
+        · have := hy1.2 hr.symm
+          simp only [cver, tomb] at this
+          simp only [tomb]
+          constructor
+          · intro _; exact ht
+          · intro _
+            by_cases hp : 0 < x.del
+            · exact hp
+            · simp [ht, hp] at this
+        · have := hx1.2 hr
+          simp only [cver, tomb] at this
+          simp only [tomb]
+          constructor
+          · intro _
+            by_cases hp : 0 < y.del
+            · exact hp
+            · simp [ht, hp] at this
+          · intro _; exact ht
+        · simp [tomb, ht]
+    · -- another key: both are untouched stored documents
+      have hyk : y.key ≠ d.key := fun e => hxk (hk.trans e)
+      have hxs : x ∈ s := by
+        rcases mem_batchUpdate.1 hx with ⟨h1, _⟩ | hb
+        · exact h1
+        · exact absurd (repairBatch_key hb) hxk
+      have hys : y ∈ s := by
+        rcases mem_batchUpdate.1 hy with ⟨h1, _⟩ | hb
+        · exact h1
+        · exact absurd (repairBatch_key hb) hyk
+      exact hf x hxs y hys hk hr
+  · -- the incoming document is the last one of the shard and has the highest revision
+    have : docsOf s' d.key = docsOf (s.filter (fun x => !((repairBatch s d t).any fun y => y.id == x.id)) ++
+        (hits s (liveIds (docsOf s d.key))).map (tomb t)) d.key ++ [d] := by
+      simp only [s', batchUpdate, repairBatch, ← List.append_assoc, docsOf_append]
+      simp [docsOf]
+    simp only [topLast, this]
+    apply latestLast_append_last
+    intro x hx
+    have hx' : x ∈ s' ∧ x.key = d.key := by
+      rw [mem_docsOf] at hx
+      refine ⟨?_, hx.2⟩
+      simp only [s', batchUpdate, repairBatch, ← List.append_assoc]
+      exact List.mem_append_left _ hx.1
+    exact (hdocs x hx'.1 hx'.2).1
 
-theorem top_congr {s s' : Shard} {k : String} (h : docsOf s' k = docsOf s k) : top s' k = top s k := by
-  simp only [top, h]
+theorem repair_empty_spec {s : Shard} (hf : FlagConsistent s) {d : Doc} (hl : topLast s d.key = none) :
+    top (upsert s d) d.key = some d ∧ FlagConsistent (upsert s d) ∧ topLast (upsert s d) d.key = some d := by
+  have hno := topLast_none.1 hl
+  refine ⟨top_upsert_newest (fun x hx hk => absurd hk (hno x hx)), ?_, ?_⟩
+  · intro x hx y hy hk hr
+    rcases mem_upsert.1 hx with ⟨hxs, _⟩ | rfl <;> rcases mem_upsert.1 hy with ⟨hys, _⟩ | rfl
+    · exact hf x hxs y hys hk hr
+    · exact absurd hk (hno x hxs)
+    · exact absurd hk.symm (hno y hys)
+    · exact Iff.rfl
+  · have : docsOf (upsert s d) d.key = docsOf (s.filter (fun x => x.id != d.id)) d.key ++ [d] := by
+      simp [upsert, docsOf_append, docsOf]
+    simp only [topLast, this]
+    apply latestLast_append_last
+    intro x hx
+    rw [mem_docsOf] at hx
+    exact absurd hx.2 (hno x (List.mem_filter.1 hx.1).1)
 
-/-- `shard.repair` computes the join of the stored newest state and the incoming one. -/
-theorem repair_topVer (s : Shard) (d : Doc) (t : Nat) :
-    topVer (repair s d t).1 d.key = vjoin (topVer s d.key) (some (ver d)) := by
-  cases hl : top s d.key with
-  | none => simp [topVer, (repair_empty t hl).1, hl, vjoin]
+theorem vjoin_of_le {a b : Ver} (h : ¬ vlt b a) : vjoin (some a) (some b) = some b ∨ (a = b) := by
+  by_cases h1 : vlt a b
+  · left; simp [vjoin, h1]
+  · right
+    simp only [vlt] at h h1
+    apply Prod.ext <;> omega
+
+/-- `repair_join` at the level the property talks about: with flag-consistent storage, `shard.repair` moves the
+    newest `(revision, deleted?)` of the key to the join with the incoming one, keeps storage flag-consistent, and
+    leaves other keys alone. -/
+theorem repair_ctopVer {s : Shard} (hf : FlagConsistent s) (d : Doc) {t : Nat} (ht : 0 < t) :
+    ctopVer (repair s d t).1 d.key = vjoin (ctopVer s d.key) (some (cver d)) ∧ FlagConsistent (repair s d t).1 := by
+  cases hl : topLast s d.key with
+  | none =>
+    have := repair_empty_spec hf hl
+    rw [repair_empty_eq t hl]
+    refine ⟨?_, this.2.1⟩
+    have hn : top s d.key = none := top_none_iff_topLast_none.2 hl
+    simp [ctopVer, this.1, hn, vjoin]
   | some l =>
-    by_cases h : vlt (ver l) (ver d)
-    · simp [topVer, (repair_accept t hl h).1, hl, vjoin, h]
-    · simp [topVer, repair_refuse t hl h, hl, vjoin, h]
+    have hc := ctopVer_of_topLast hf hl
+    by_cases h : Refuses l d
+    · rw [repair_refuse t hl h]
+      refine ⟨?_, hf⟩
+      rw [hc]
+      have := cver_ge_of_refuses h
+      simp [vjoin, this]
+    · rw [repair_accept_eq t hl h]
+      obtain ⟨⟨n, hn, hcn⟩, hf', _⟩ := repair_accept_spec hf ht hl h
+      refine ⟨?_, hf'⟩
+      rw [hc]
+      simp only [ctopVer, hn, Option.map_some, hcn]
+      rcases vjoin_of_le (cver_le_of_not_refuses h) with e | e
+      · exact e.symm
+      · rw [e]; simp [vjoin, vlt]
 
-theorem repair_topVer_other (s : Shard) (d : Doc) (t : Nat) {k : String} (hk : k ≠ d.key) :
-    topVer (repair s d t).1 k = topVer s k := by
-  simp only [topVer, top_congr (repair_other s d t hk)]
+theorem repair_ctopVer_other (s : Shard) (d : Doc) (t : Nat) {k : String} (hk : k ≠ d.key) :
+    ctopVer (repair s d t).1 k = ctopVer s k := by
+  simp only [ctopVer, top_congr (repair_other s d t hk)]
 
-/-- the newest document after a repair is the incoming one or the one that was there. -/
-theorem repair_top_cases (s : Shard) (d : Doc) (t : Nat) :
-    top (repair s d t).1 d.key = some d ∨ top (repair s d t).1 d.key = top s d.key := by
-  cases hl : top s d.key with
-  | none => exact Or.inl (repair_empty t hl).1
-  | some l =>
-    by_cases h : vlt (ver l) (ver d)
-    · exact Or.inl (repair_accept t hl h).1
-    · right; rw [repair_refuse t hl h, hl]
+/-- content (everything but the delete time) is never invented: every document after a repair has the key,
+    revision, create revision and tags of the incoming document or of a stored one. -/
+def SameContent (x y : Doc) : Prop := x.key = y.key ∧ x.rev = y.rev ∧ x.created = y.created ∧ x.tags = y.tags
+
+theorem repair_origin (s : Shard) (d : Doc) (t : Nat) {y : Doc} (hy : y ∈ (repair s d t).1) :
+    SameContent d y ∨ ∃ x ∈ s, SameContent x y := by
+  simp only [repair] at hy
+  split at hy
+  · rcases mem_upsert.1 hy with ⟨h, _⟩ | rfl
+    · exact Or.inr ⟨y, h, rfl, rfl, rfl, rfl⟩
+    · exact Or.inl ⟨rfl, rfl, rfl, rfl⟩
+  · split at hy
+    · exact Or.inr ⟨y, hy, rfl, rfl, rfl, rfl⟩
+    · rcases mem_batchUpdate.1 hy with ⟨h, _⟩ | hb
+      · exact Or.inr ⟨y, h, rfl, rfl, rfl, rfl⟩
+      · rcases mem_repairBatch hb with rfl | ⟨x, hx, _, rfl⟩
+        · exact Or.inl ⟨rfl, rfl, rfl, rfl⟩
+        · exact Or.inr ⟨x, hx, rfl, rfl, rfl, rfl⟩
 
 end Banyan.C18
